@@ -69,13 +69,15 @@ def run(tier):
     try:
         trace = []; behaviours = []; nfiles = 0
         for k, j in enumerate(jobs):
-            cfg = j["config"]; b = j["bounds"]
+            asked = j["config"]; cfg = j["effective"]; b = j["bounds"]      # cfg: the cell counts the mesh must have (capped by --resolution-limit)
+            ascii_ = bool(asked.get("ascii"))
+            limit = ["--resolution-limit", str(asked["limit"])] if asked.get("limit") else []
             d = os.path.join(tmp, "run%d" % k); os.makedirs(d)
             wbp = os.path.join(d, "w.wb"); gp = os.path.join(d, "g.grid")
             json.dump(terms.normalise(j["wb"]), open(wbp, "w"))
             open(gp, "w").write("\n".join(j["grid"]) + "\n")
-            p = subprocess.run([exes["gwb-grid"], "-j", "3", "--filtered", "--by-tag", wbp, gp], cwd=d, stdout=subprocess.PIPE, stderr=subprocess.PIPE, text=True, timeout=600)
-            desc = json.dumps({"cmd": [exes["gwb-grid"], "-j", "3", "--filtered", "--by-tag", "<wb>", "<grid>"], "config": cfg, "grid": j["grid"], "wb": j["wb"]})
+            p = subprocess.run([exes["gwb-grid"], "-j", "3", "--filtered", "--by-tag"] + limit + [wbp, gp], cwd=d, stdout=subprocess.PIPE, stderr=subprocess.PIPE, text=True, timeout=600)
+            desc = json.dumps({"cmd": [exes["gwb-grid"], "-j", "3", "--filtered", "--by-tag"] + limit + ["<wb>", "<grid>"], "config": asked, "grid": j["grid"], "wb": j["wb"]})
             main = os.path.join(d, "w.vtu")
             if p.returncode != 0 or not os.path.exists(main):
                 c.mismatches.append({"id": "grid-%d" % k, "labels": ["grid-run", cfg["type"]], "check": "run", "op": "gwb-grid", "got": "rc=%d" % p.returncode,
@@ -117,7 +119,8 @@ def run(tier):
             behaviours.append(json.dumps({"id": ["grid-values", cfg], "labels": ["grid-values", cfg["type"], "dim%d" % cfg["dim"]],
                 "steps": [{"op": "create", "h": 1, "wb": j["wb"], "default_seed": True},
                           {"op": "qtable", "h": 1, "dim": cfg["dim"], "props": [[1, 0, 0], [5, 0, 0], [4, 0, 0]] + [[2, q, 0] for q in range(nc)],
-                           "checks": [{"k": "eq", "at": q, "col": off + q} for q in range(5 + nc)], "rows": rows}]}))
+                           # ASCII files hold six significant digits (the positions of these Cartesian grids are exact in six digits)
+                           "checks": [({"k": "tol", "at": q, "col": off + q, "rel": 2e-6, "abs": 1e-9} if ascii_ else {"k": "eq", "at": q, "col": off + q}) for q in range(5 + nc)], "rows": rows}]}))
             # filtered outputs: which source cells were kept, node values unchanged
             wbdoc = terms.normalise(j["wb"])
             for f in sorted(glob.glob(os.path.join(d, "w.*.vtu"))):
@@ -170,7 +173,8 @@ def run(tier):
         c.coverage["distinct_nontrivial"] = len(jobs)
         c.coverage["rule"] = ("every grid configuration type {cartesian, chunk, annulus, sphere} x dim x cell counts 1..MaxN per direction "
                               "(quick MaxN = 2, thorough 3), run through the real gwb-grid with --filtered --by-tag and RawBinary output (full "
-                              "precision); every mesh (main, filtered, one per tag) is replayed to TLC as a trace: node lattice indices form the "
+                              "precision); also with --resolution-limit 1 (the mesh must have min(requested, limit) cells) and, for Cartesian grids, the ASCII "
+                              "format (values to six digits); every mesh (main, filtered, one per tag) is replayed to TLC as a trace: node lattice indices form the "
                               "full index box, cells are exactly the unit cells in VTK order, Depth index, filter rule; every stored node value is "
                               "compared bitwise with the library's in-process reply at the stored position. non-trivial: all configurations")
         c.assumptions += ["sphere grids are judged by invariants only (cells reference existing nodes, radii in the shell, Depth = outer radius - r, values at nodes)",
